@@ -1,47 +1,78 @@
 // Appended to a scratch copy of src/lib.rs.
-// Property (C10): reset() restores the initial state: after set_input_offset(1024 * k) (any k) and
-// reset(), count() == 0 (and does not panic) and every field equals the one of a fresh Hasher built
-// with the same constructor.  No input is hashed, so no compression function runs.
+// Property (C10): reset() restores the initial state.  A Hasher is constructed (Hasher::new() /
+// Hasher::new_keyed(any key)); its state right after construction IS the initial state and is
+// recorded field by field.  Then set_input_offset(1024 * k) for ANY k and reset(): count() == 0
+// (and count() does not panic) and every recorded field has its initial value again.
+// No input is hashed, so no compression function runs.
 #[cfg(kani)]
 mod vf_kani_reset_restores_initial_state {
     use super::*;
     use crate::hazmat::HasherExt;
 
-    fn same_state(h: &Hasher, fresh: &Hasher) {
-        assert!(h.initial_chunk_counter == fresh.initial_chunk_counter, "initial_chunk_counter restored");
-        assert!(h.chunk_state.chunk_counter == fresh.chunk_state.chunk_counter, "chunk_state.chunk_counter restored");
-        assert!(h.cv_stack.len() == fresh.cv_stack.len(), "cv_stack emptied");
-        assert!(h.chunk_state.buf_len == fresh.chunk_state.buf_len, "chunk_state.buf_len restored");
-        assert!(h.chunk_state.blocks_compressed == fresh.chunk_state.blocks_compressed, "chunk_state.blocks_compressed restored");
-        assert!(h.chunk_state.cv == fresh.chunk_state.cv, "chunk_state.cv restored");
-        assert!(h.chunk_state.flags == fresh.chunk_state.flags, "chunk_state.flags restored");
-        assert!(h.key == fresh.key, "key kept");
+    struct Snapshot {
+        initial_chunk_counter: u64,
+        chunk_counter: u64,
+        cv_stack_len: usize,
+        buf_len: u8,
+        blocks_compressed: u8,
+        flags: u8,
+        cv: CVWords,
+        key: CVWords,
     }
 
-    #[kani::proof]
-    fn vf_reset_after_set_input_offset() {
-        let k: u64 = kani::any();
-        kani::assume(k <= u64::MAX / CHUNK_LEN as u64);
-        let fresh = Hasher::new();
-        let mut h = Hasher::new();
+    fn snapshot(h: &Hasher) -> Snapshot {
+        Snapshot {
+            initial_chunk_counter: h.initial_chunk_counter,
+            chunk_counter: h.chunk_state.chunk_counter,
+            cv_stack_len: h.cv_stack.len(),
+            buf_len: h.chunk_state.buf_len,
+            blocks_compressed: h.chunk_state.blocks_compressed,
+            flags: h.chunk_state.flags,
+            cv: h.chunk_state.cv,
+            key: h.key,
+        }
+    }
+
+    fn check(h: &mut Hasher, k: u64) {
+        let init = snapshot(h);
+        assert!(init.initial_chunk_counter == 0 && init.chunk_counter == 0 && init.cv_stack_len == 0,
+            "a new Hasher starts at chunk 0 with an empty stack");
         h.set_input_offset(CHUNK_LEN as u64 * k);
         h.reset();
         assert!(h.count() == 0, "count() == 0 after reset()");
-        same_state(&h, &fresh);
+        let now = snapshot(h);
+        assert!(now.initial_chunk_counter == init.initial_chunk_counter, "initial_chunk_counter restored");
+        assert!(now.chunk_counter == init.chunk_counter, "chunk_state.chunk_counter restored");
+        assert!(now.cv_stack_len == init.cv_stack_len, "cv_stack emptied");
+        assert!(now.buf_len == init.buf_len, "chunk_state.buf_len restored");
+        assert!(now.blocks_compressed == init.blocks_compressed, "chunk_state.blocks_compressed restored");
+        assert!(now.flags == init.flags, "chunk_state.flags restored");
+        let mut i = 0;
+        while i < 8 {
+            assert!(now.cv[i] == init.cv[i], "chunk_state.cv restored");
+            assert!(now.key[i] == init.key[i], "key kept");
+            i += 1;
+        }
+    }
+
+    #[kani::proof]
+    #[kani::unwind(10)]
+    fn vf_reset_after_set_input_offset() {
+        let k: u64 = kani::any();
+        kani::assume(k <= u64::MAX / CHUNK_LEN as u64);
+        let mut h = Hasher::new();
+        check(&mut h, k);
         kani::cover!(true, "harness end reachable");
     }
 
     #[kani::proof]
+    #[kani::unwind(10)]
     fn vf_reset_after_set_input_offset_keyed() {
         let k: u64 = kani::any();
         kani::assume(k <= u64::MAX / CHUNK_LEN as u64);
         let key: [u8; KEY_LEN] = kani::any();
-        let fresh = Hasher::new_keyed(&key);
         let mut h = Hasher::new_keyed(&key);
-        h.set_input_offset(CHUNK_LEN as u64 * k);
-        h.reset();
-        assert!(h.count() == 0, "count() == 0 after reset()");
-        same_state(&h, &fresh);
+        check(&mut h, k);
         kani::cover!(true, "harness end reachable");
     }
 }
